@@ -122,7 +122,7 @@ class C09(EvalFamProp):
             # (the !rec key first; the other order is recorded finding D54)
             items.sort(key=lambda kv: kv[0] != 'data')
             if rng.random() < 0.35:
-                # the reference FIRST: recorded finding D54
+                # the reference FIRST (repo fix D54)
                 items.sort(key=lambda kv: kv[0] != 'x')
             out.append({'docs': [{'raw': M(items), 'shared': True}], 'style': ['flow', 0, 0], 'recfam': inner,
                         'files': {'data.yaml': '%s: {lr: 1, l: [1, 2]}\nother: 3\n' % inner}})
@@ -165,13 +165,7 @@ class C09(EvalFamProp):
             keys = [sc_py(k) for k, _ in case['docs'][0]['raw'].get('m', [])]
             if 'data' not in keys or 'x' not in keys or '!rec' not in json.dumps(case['docs']):
                 return None       # (shrunk) out of the family
-            if keys.index('x') < keys.index('data') and (keys[0] == 'x' or keys[0] == 'k' or keys[0] == 'y'):
-                if cfg.get('err') == 'eval':
-                    return ('D54: a reference into the content of a lazily included file that is written BEFORE the !rec key fails (the target '
-                            'path does not exist until the file has been evaluated); with the !rec key first the same documents build')
-                return None
-            if keys[0] != 'data':
-                return None
+            # either order: the reference written before the !rec key makes the context evaluate the lazily included file first (repo fix D54)
             if 'ok' not in cfg:
                 return ('a reference into the content of a lazily included file must resolve once the file is evaluated: '
                         + json.dumps({k: v for k, v in cfg.items() if k != 'log'})[:160])
@@ -263,8 +257,6 @@ class C09(EvalFamProp):
         return None
 
     def finding_key(self, case, desc):
-        if desc and desc.startswith('D54'):
-            return 'reference-before-lazy-include'
         if desc and desc.startswith('D21'):
             return 'eval-cycle-placeholder'
         return None
